@@ -43,6 +43,8 @@ func init() {
 				Edits: []Edit{{File: "util/bytes.go", Old: "return true, output[idx+1:]", New: "return true, output[idx:]"}}},
 			{ID: "C01-newline-searched-in-whole-buffer", Desc: "line-boundary snap searches the whole buffer", Rule: "C01/search-depth",
 				Edits: []Edit{{File: "channel/read.go", Old: "partitionIdx := bytes.Index(prb, []byte(\"\\n\"))", New: "partitionIdx := bytes.Index(rb, []byte(\"\\n\"))"}}},
+			{ID: "C01-window-not-snapped", Desc: "search window no longer moved to a line boundary", Rule: "C01/search-depth",
+				Edits: []Edit{{File: "channel/read.go", Old: "\tif partitionIdx > 0 {\n\t\tprb = prb[partitionIdx:]\n\t}\n", New: "\t_ = partitionIdx\n"}}},
 			{ID: "C01-last-first", Desc: "SendCommands sends the last command first", Rule: "C01/one-response-per-command",
 				Edits: []Edit{{File: "driver/generic/sendcommands.go", Old: "\tfor _, input := range commands[:len(commands)-1] {", New: "\tfor _, input := range commands[1:] {"}}},
 			{ID: "C01-sendcommand-twice", Desc: "sendCommand sends the command twice when it failed", Rule: "C01/tx-seq",
@@ -660,6 +662,25 @@ func checkSearchDepth(c *Ctx, r *Report) {
 			cur += rest[:end+1]
 			rest = rest[end+1:]
 		}
+	}
+	// ... and the snap exists: some long-buffer path cuts the window at a newline found in it
+	hasSnap := false
+	for _, p := range pp {
+		if p.Undecided == "" && len(p.Returns) == 1 && strings.HasPrefix(p.Returns[0], rb+"[") {
+			ret := p.Returns[0]
+			for _, f := range []string{"bytes.Index(", "bytes.IndexByte("} {
+				if i := strings.LastIndex(ret, "]["+f); i >= 0 {
+					window := ret[:i+1]
+					if strings.HasPrefix(ret[i+2+len(f):], window+",") {
+						hasSnap = true
+					}
+				}
+			}
+		}
+	}
+	if okSnap && !hasSnap {
+		okSnap = false
+		snapMsg = "the search window is never moved forward to the first line boundary inside it: it can start in the middle of a line, where `(?m)^` matches, so the tail of an ordinary output line that ends like a prompt (or like an awaited response such as 'password:') is taken for one -- the operation returns early with truncated output, or types the next input (a secret) although the device never asked"
 	}
 	r.Check(okSnap, rule, "window snapped to a line boundary of itself", c.Pos(prb.Pos()), "the newline index is searched in the slice it cuts", "processReadBuf: "+snapMsg)
 	r.Check(okSuffix && okWhole, rule, "window is a suffix of the buffer", c.Pos(prb.Pos()), "whole buffer when short, else a tail slice", "processReadBuf: the search window is not always a suffix of the accumulated buffer: "+msg)
